@@ -90,13 +90,18 @@ def check_ff(edge, kind, break_spec=False):
     sg = Signal(3, init=2, name="sg")
     o = Signal(4, init=3, name="o")
     dd = Signal(4, name="d")
-    m.d.sync += [r.eq(r + dd), rl.eq(rl + dd)]
+    # signed registers: a negative and a positive initial value, and one of which only bits 1..2 are driven
+    from amaranth.hdl import signed as _signed
+    sn = Signal(_signed(3), init=-3, name="sn")
+    sp = Signal(_signed(4), init=5, name="sp")
+    spart = Signal(_signed(4), init=-6, name="spart")
+    m.d.sync += [r.eq(r + dd), rl.eq(rl + dd), sn.eq(sn + dd[0:2]), sp.eq(-sp), spart[1:3].eq(dd[0:2])]
     with m.If(dd[0]):
         m.d.sync += sg.eq(sg - 1)
     m.d.other += o.eq(o + 1)
     d = Design(m)
     active = 1 if edge == "pos" else 0
-    regs = [r, rl, sg, o]
+    regs = [r, rl, sg, o, sn, sp, spart]
     events = ["active-edge", "inactive-edge", "other-clk-rise", "other-rst-rise"]
     if kind != "noreset":
         events += ["active-edge-in-reset", "rst-rise", "rst-fall", "rst-rise-with-active-edge"]
@@ -141,12 +146,21 @@ def check_ff(edge, kind, break_spec=False):
                 exp["r"] = (old["r"] + dv) & 15
                 exp["rl"] = (old["rl"] + dv) & 15
                 exp["sg"] = ite((dv & 1) != 0, (old["sg"] - 1) & 7, old["sg"])
+                exp["sn"] = norm(old["sn"] + (dv & 3), 3, True)
+                exp["sp"] = norm(-old["sp"], 4, True)
+                exp["spart"] = norm((old["spart"] & ~0b0110) | ((dv & 3) << 1), 4, True)
                 if in_reset and kind in ("sync", "async"):
                     exp["r"] = r.init
                     exp["sg"] = sg.init
+                    exp["sn"] = sn.init
+                    exp["sp"] = sp.init
+                    exp["spart"] = norm((exp["spart"] & ~0b0110) | (spart.init & 0b0110), 4, True)
             if async_load:
                 exp["r"] = r.init
                 exp["sg"] = sg.init
+                exp["sn"] = sn.init
+                exp["sp"] = sp.init
+                exp["spart"] = norm((exp["spart"] & ~0b0110) | (spart.init & 0b0110), 4, True)
             if ev == "other-clk-rise":
                 exp["o"] = (old["o"] + 1) & 15
             if break_spec and ev == "active-edge":
